@@ -474,11 +474,16 @@ def call_lua_sandbox(
                         # parameter names...
                         k = int(k)
                         if k > 1000:
+                            # Unusual, but the name is kept: the other
+                            # arguments' names are not renumbered either,
+                            # and two such names must not end up as one
                             ctx.warning(
                                 f"Template argument index >1000: {k=!r}",
                                 sortid="luaexec/477/20230710",
                             )
-                            k = 1000
+                            if k > 2**53:
+                                # Lua 5.1 numbers are doubles
+                                k = float(k)
                     else:
                         # The name may contain template calls and parser
                         # functions, as the name of a template argument
